@@ -45,8 +45,10 @@ Inductive ref :=
 | RNew (n : bytes)                               (* Builder.Ident of a NEW name (ALTER TYPE ... RENAME TO n):
                                                     a definition, bare by SQL syntax, not a reference *)
 | RRaw (n : bytes)                               (* round 5: a type name written RAW -- FormatType's text through
-                                                    Builder.P: no quoting, no qualifying call (alterType, the
-                                                    "sequence was dropped" arm: serial -> enum) *)
+                                                    Builder.P: no quoting, no qualifying call.  No statement form
+                                                    writes it since fix C16-serial-enum-type-ident (before it:
+                                                    alterType, "sequence was dropped" arm, serial -> enum; see
+                                                    RefSkeletonProofs alter_type_refs_before_fix) *)
 | RLit (ns : option bytes) (n : bytes).          (* round 5: state.schemaPrefix(ns) + %q INSIDE a string literal:
                                                     alterType, SET DEFAULT nextval('<prefix>"<seq>"') *)
 
@@ -202,15 +204,15 @@ Definition SerialType_sequence (sn t c : bytes) : bytes :=
 
 (* alterType (sql/postgres/migrate_oss.go), references of the ALTER COLUMN clause(s) of a type change
    of column [c] of table [o] towards (enum [te], serial [ts]) from serial [fs]:
-     fromHas && !toHas : DROP DEFAULT [, ALTER COLUMN c TYPE FormatType(To)]      -- FormatType of an enum type
-                                                                                     is its bare name: RRaw
+     fromHas && !toHas : DROP DEFAULT [, ALTER COLUMN c TYPE enumIdent(To) | FormatType(To)]
+                                                          (enumIdent since fix C16-serial-enum-type-ident)
      !fromHas && toHas : SET DEFAULT nextval('<schemaPrefix(t.Schema)>%q')        -- in a literal
      fromHas && toHas  : TYPE <integer type>                                       -- none
      default           : TYPE enumIdent(To) | FormatType(To) *)
 Definition alter_type_refs (o : obj) (c : bytes) (te : option (option bytes * bytes))
                            (fs ts : option bytes) : list ref :=
   match fs, ts with
-  | Some _, None => match te with Some (_, n) => [RRaw n] | None => [] end
+  | Some _, None => match te with Some (ns, n) => [RType ns n] | None => [] end
   | None, Some sn => [RLit (o_schema o) (SerialType_sequence sn (o_name o) c)]
   | Some _, Some _ => []
   | None, None => match te with Some (ns, n) => [RType ns n] | None => [] end
